@@ -412,6 +412,48 @@ mod imp {
             }
         }
 
+        // ---- F: for-each / range loops inside functions whose loop body ends in `return`, followed by more code;
+        //      called with the empty string, one-character and longer strings, at every level
+        if !flag("--no-first") {
+            let mut fstrs: Vec<Vec<u32>> = vec![vec![], vec![0x1D11E], vec![0xE9], vec![0x41], vec![0], vec![0x1D11E, 0xE9], vec![0x301, 0x61]];
+            for _ in 0..arg_u64("--first", 20) {
+                let len = rng.range_i64(0, 6) as usize;
+                fstrs.push((0..len).map(|_| rand_scalar(&mut rng)).collect());
+            }
+            for (fi, cs) in fstrs.iter().enumerate() {
+                let mut with_marker = cs.clone(); with_marker.extend("<none>".chars().map(|c| c as u32));
+                let (s1, _) = pick_seps(&with_marker);
+                let form = *rng.pick(&["lit", "cat_var", "method_concat", "fn_ret", "interp"]);
+                let typed = rng.chance(1, 2);
+                let p = if typed { "u: string" } else { "u" };
+                let cons = construct(cs, form, &mut rng);
+                let emptied = rng.chance(1, 3);      // the empty string made at run time
+                let src = format!("fn first_item({p}) {{\n    for c in u {{\n        return c\n    }}\n    return \"<none>\"\n}}\n\
+fn yields_nothing({p}) {{\n    for c in u {{\n        return 0\n    }}\n    return 1\n}}\n\
+fn idx_first({p}) {{\n    for jx in 0..u.char_len() {{\n        return u[jx]\n    }}\n    return \"<none>\"\n}}\n\
+fn count_after({p}) {{\n    let mut k = 0\n    for c in u {{\n        k++\n    }}\n    return k\n}}\n\
+{cons}{mk}print(first_item(sv)); print(\"{s1}\"); print(idx_first(sv)); print(\"{s1}\"); print(first_item(em)); print(\"{s1}\")\n\
+print(yields_nothing(sv)); print(\"{s1}\"); print(yields_nothing(em)); print(\"{s1}\"); print(count_after(sv)); print(\"{s1}\"); print(count_after(em)); print(\"{s1}\")\n",
+                    mk = if emptied { "let em = sv.substr(sv.char_len(), 5)\n" } else { "let em = \"\"\n" });
+                println!("J\t{}\t{}\t{}", fi, form, esc(&src));
+                for &o in &opts {
+                    let r = run_program(&src, o, (0, 0), budget, None);
+                    let obs: Vec<i128> = if r.class != "ok" { vec![-9, class_code(&r.class)] } else {
+                        match r.output.strip_suffix(s1) {
+                            None => vec![-8, 1],
+                            Some(b) => { let f: Vec<&str> = b.split(s1).collect();
+                                if f.len() != 7 { vec![-8, f.len() as i128] } else {
+                                    let mut v = Vec::new();
+                                    for x in &f[..3] { v.extend(bytes_of(x)); }
+                                    for x in &f[3..] { v.push(x.parse::<i128>().unwrap_or(-77)); }
+                                    v } }
+                        }
+                    };
+                    println!("F\t{}:{}:{}:{}:O{}\tQFirst {}\t{}", fi, form, if typed { "typed" } else { "untyped" }, if emptied { "substr-empty" } else { "lit-empty" }, o, coq_list(cs), join(&obs));
+                }
+            }
+        }
+
         // ---- P: programs
         if flag("--no-prog") { return; }
         let strs = gen_strings(&mut rng, n_random);
@@ -433,7 +475,10 @@ mod imp {
                 let idx_form = *rng.pick(&IDX_FORMS);
                 let local = rng.chance(1, 3);
                 let cons = construct(cs, form, &mut rng);
-                let main_src = wrap(&cons, &observe("sv", n, idx_form, s1, s2), form, local);
+                // an immutable top-level constant named like the loop variables, declared before the loops: the loops' own
+                // variables must shadow it at every optimisation level
+                let collide = !local && rng.chance(1, 2);
+                let main_src = format!("{}{}", if collide { "let it = \"?\"\nlet jx = 0\n" } else { "" }, wrap(&cons, &observe("sv", n, idx_form, s1, s2), form, local));
                 let mut err_srcs = Vec::new();
                 for (k, i) in [-1i64, n as i64, n as i64 + 1].iter().enumerate() {
                     let body = if k == 0 && rng.chance(1, 2) { "let neg = 0 - 1\nprint(sv[neg])\n".to_string() }
@@ -469,7 +514,7 @@ mod imp {
                         Some(a) => (if a[0] >= 1 { "SelString" } else { "SelDynamic" }, format!("{},{},{},{},{}", a[0], a[1], a[2], a[3], a[4])),
                         None => ("SelString", "?".to_string()),
                     };
-                    println!("P\t{}:{}:{}:{}:O{}:{}\tQProg {} {}\t{}", case_id, form, idx_form, if local { "local" } else { "global" }, o, opss,
+                    println!("P\t{}:{}:{}:{}:O{}:{}\tQProg {} {}\t{}", case_id, form, idx_form, if local { "local" } else if collide { "global+const" } else { "global" }, o, opss,
                              sel, coq_list(cs), join(&obs));
                 }
                 case_id += 1;
